@@ -1082,12 +1082,17 @@ def _judge_skips(mon, world, final_state, recorded):
             if now in (None, "?"):
                 continue
             if d != now:
+                key = "skipped-on-changed-input"
+                if label in mon.refreshed:
+                    # consequence of known finding F8: the last success itself was recorded on
+                    # content the command had not read
+                    key += ":hash-refreshed-by-failed-sibling:" + mon.refreshed_kind.get((label, relpath), "amended-input")
                 mon.violate(
                     "R-final/skip",
                     "skipped-on-changed-input",
                     f"{label} was skipped and is SUCCEEDED, but its last command read {relpath} "
                     f"with digest {d} and the content recorded when the skip was committed is {now}",
-                    "skipped-on-changed-input",
+                    key,
                 )
                 break
 
